@@ -59,6 +59,7 @@ var checks = []Check{
 		Jobs: []Job{
 			{Pkg: "config", Scenarios: []string{"C16/short"}, Shards: 16, QuickS: 80, ThoroughS: 600},
 			{Pkg: "config", Scenarios: []string{"C16/many", "C16/smallqueue"}, Shards: 16, QuickS: 80, ThoroughS: 600},
+			{Pkg: "config", Scenarios: []string{"C16/dependency-hook"}, Shards: 16, QuickS: 60, ThoroughS: 600},
 		},
 	},
 	{
@@ -146,7 +147,7 @@ var checks = []Check{
 		Technique:   "preemption/delay-bounded stateless schedule exploration of the real goroutines under a controlled scheduler with fault injection at every network operation",
 		Assumptions: engineAssumptions,
 		Jobs: []Job{
-			{Pkg: "proc/redis", Scenarios: []string{"C02/split"}, Shards: 4, QuickS: 60, ThoroughS: 300},
+			{Pkg: "proc/redis", Scenarios: []string{"C02/split", "C02/banned-pipeline"}, Shards: 8, QuickS: 60, ThoroughS: 300},
 			{Pkg: "proc/redis", Scenarios: []string{"C02/split-race"}, Race: true, Shards: 1, QuickS: 60, ThoroughS: 300},
 			{Pkg: "proc/redis", Scenarios: []string{"C02/client"}, Shards: 16, QuickS: 80, ThoroughS: 600},
 			{Pkg: "proc/redis", Scenarios: []string{"C02/upstream"}, Shards: 16, QuickS: 80, ThoroughS: 600},
